@@ -7,12 +7,7 @@ META = {
                  "64-bit counter arithmetic of d0123/add_pos/inc_block_ct on the little-endian u64x2 view (join/split "
                  "lemmas), transpose by lanes; differential correspondence model<->impl on every back end (hook H1) in "
                  "both profiles plus the direct statement refill4 == 4 x refill on the implementation",
-    "level_text": "Machine-checked theorems (Props/C14.v), for every well-formed state and EVERY number of double rounds "
-                  "(0 included): C14_refill4_eq_4_refills (refill_wide = bytes of four consecutive refills, same final "
-                  "state), C14_d0123_counters (lane i holds counter+i mod 2^64 in words 0,1; words 2,3 untouched), "
-                  "C14_add_pos, C14_inc_block_ct (64-bit carry low->high word, never into the stream-id words, wrap at "
-                  "2^64, no panic), C14_refill_emits_then_advances / C14_refill4_emits_then_advances (block(s) for the "
-                  "current counter(s) = specified block function, then counter +1 / +4), C14_at_ctr_spec.",
+    "level_text": "Machine-checked theorems (Props/C14.v), for every well-formed state and EVERY number of double rounds (0 included): C14_refill4_eq_4_refills (refill_wide = bytes of four consecutive refills, same final state), C14_d0123_counters (lane i holds counter+i mod 2^64 in words 0,1; words 2,3 untouched), C14_add_pos, C14_inc_block_ct (64-bit carry low->high word, never into the stream-id words, wrap at 2^64, no panic), C14_refill_emits_then_advances / C14_refill4_emits_then_advances (block(s) for the current counter(s) = specified block function, then counter +1 / +4), C14_at_ctr_spec. On every back end and configuration (composed with C03): C14_refill4_eq_4_refills_every_backend (six real machines, both profiles), C14_refill4_eq_4_refills_every_config.",
     "level_note": "Trusted: Coq kernel+VM; hand-written model Model/ChaChaGuts.v (little-endian arms of d0123/add_pos; "
                   "vector operations at their lane meaning Spec/Lanes.v, which C12/C13/C03 tie to the back ends) tied to "
                   "guts.rs on generated cases per back end; harness. No axioms.",
